@@ -200,7 +200,7 @@ impl LinkRelay<OutputHandle> {
 
 //@@ fn file=fe2o3-amqp/src/link/mod.rs impl=`impl LinkRelay<OutputHandle>` name=on_incoming_transfer
 //@@ subst `InputHandle::from(` => `handle_to_input(` rule=R16
-//@@ subst `|_v0|` => `|_v0: ChanSendError|` rule=R5
+//@@ subst `|_v0|` => `|_v0: ChanSendError|` rule=optional-R5
 //@@ spec
     ensures
         *old(self) is Sender ==> r is Err && *final(self) == *old(self),                                     // [C15.relay.transfer-to-sender] a transfer addressed to a sending link is an error and has no effect
@@ -234,7 +234,7 @@ impl ReceiverLinkD {
 //@@ subst `let mut lock = self.unsettled.write();` => `let mut lock = &mut self.unsettled;` rule=R4
 //@@ subst `lock.as_mut() .and_then(|map| map.swap_remove(&delivery_info.delivery_tag))` => `opt_swap_remove(&mut *lock, &delivery_info.delivery_tag)` rule=R15
 //@@ subst `lock.get_or_insert(OrderedMap::new()) .insert(delivery_info.delivery_tag.clone(), Some(state.clone()))` => `opt_insert(&mut *lock, delivery_info.delivery_tag.clone(), Some(state.clone()))` rule=R15
-//@@ subst `|_v0|` => `|_v0: ChanSendError|` rule=R5
+//@@ subst `|_v0|` => `|_v0: ChanSendError|` rule=optional-R5
 //@@ spec
     ensures
         ({
@@ -363,7 +363,7 @@ impl<R, T, F, M> Link<R, T, F, M> {
 //@@ fn file=fe2o3-amqp/src/link/mod.rs impl=`impl<R, T, F, M> endpoint::LinkDetach for Link<R, T, F, M> where R: role::IntoRole + Send + Sync, T: Send, F: AsRef<LinkFlowState<R>> + Send + Sync, M: AsDeliveryState + Send + Sync,` name=send_detach
 //@@ param writer : &mut ChanSender<LinkFrame>
 //@@ subst `handle.into()` => `output_to_handle(handle)` rule=R16
-//@@ subst `|_v0|` => `|_v0: ChanSendError|` rule=R5
+//@@ subst `|_v0|` => `|_v0: ChanSendError|` rule=optional-R5
 //@@ spec
     ensures
         ({
@@ -406,8 +406,8 @@ impl<R, T, F, M> Link<R, T, F, M> {
 //@@ subst `let mut guard = self.unsettled.write(); *guard = None;` => `self.unsettled = None;` rule=R4
 //@@ subst `let guard = self.unsettled.read(); guard.as_ref().map(|m| m.len())` => `unsettled_len(&self.unsettled)` rule=R15
 //@@ subst `get_max_frame_size(session, &self.session_stop_reason)` => `get_max_frame_size(session, &self.session_stop_reason)` rule=optional
-//@@ subst `|_v0|` => `|_v0: ChanSendError|` rule=R5
-//@@ subst `|_v1|` => `|_v1: ChanSendError|` rule=R5
+//@@ subst `|_v0|` => `|_v0: ChanSendError|` rule=optional-R5
+//@@ subst `|_v1|` => `|_v1: ChanSendError|` rule=optional-R5
 //@@ spec
     ensures
         ({
